@@ -283,6 +283,11 @@ M('c12-deleg-inverse-dropped', 'C12', TTB, "            self.is_monotone_at(i, i
 M('c12-define-nocopy', 'C12', TTB, "        _table_cp = copy.deepcopy(self._table)", "        _table_cp = self._table", 'C12.DEFINE')
 M('c12-define-overwrite', 'C12', PYF, "                if answer[idx] != DontCare:\n                    continue\n", "                if (args_tuple, idx) not in definition:\n                    continue\n", 'C12.DEFINE')
 M('c12-define-self', 'C12', BFN, "        if definition:\n            raise BadDefinitionError(\"Boolean function is already defined.\")\n        return self", "        return self", 'C12.DEFINE')
+CUT = 'cirbo/core/circuit/utils.py'
+M('c12-iter-shared-buffer', 'C12', CUT, "        yield list(_inp)", "        yield _inp", 'C12.ITER')
+M('c12-iter-weight-off', 'C12', CUT, "itertools.combinations(range(input_size), number_of_true)", "itertools.combinations(range(1, input_size), number_of_true)", 'C12.ITER')
+M('c12-iter-neg-dropped', 'C12', CUT, "            _inp[idx] = True ^ _negations[idx]", "            _inp[idx] = True", 'C12.ITER')
+M('c12-twin-iter-tuple', 'C12', CUT, "        yield list(_inp)", "        yield [v for v in _inp]", None)
 M('c12-twin-prev-name', 'C12', PYF, "            old_value = value\n        return True", "            prev = value\n            old_value = prev\n        return True", None)
 
 # ---------------------------------------------------------------- C16
